@@ -42,6 +42,7 @@ def judge_diff(case):
     prog.append({'id': 'I', 'op': 'intersect', 'a': 'A', 'b': 'B'})
     for r in ('A', 'B', 'D', 'I'):
         prog.append({'id': 's' + r, 'op': 'satisfies', 'r': r, 'v': 'v'})
+        prog.append({'id': 'a' + r, 'op': 'adm', 'r': r, 'v': 'v'})
 
     def judge(native):
         ok, why = built(native, prog)
@@ -55,6 +56,10 @@ def judge_diff(case):
         txt = 'A=%s B=%s v=%s: A.difference(B)=%s satisfies(v): A=%s B=%s A\\B=%s A∩B=%s' % (
             prog[0]['text'], prog[1]['text'], rp.version_text(case['v'], names), (native.get('D') or {}).get('print'), sA, sB, sD, sI)
         if case['v']['pre']:
+            aA, aB = bool(native.get('aA')), bool(native.get('aB'))
+            aD = bool(native.get('aD')) if (native.get('D') or {}).get('some') else False
+            if aD != (aA and not aB):
+                return 'confirmed', txt + ' | within the bounds (allows_any(=v)): A=%s B=%s A\\B=%s' % (aA, aB, aD)
             return 'mismatch', 'prerelease probe: ' + txt
         if sD != (sA and not sB) or (sD and sI) or ((sD or sI) != sA):
             return 'confirmed', txt
